@@ -132,11 +132,44 @@ def body_query(desc, F, *args):
     from rdflib.plugins.sparql.evaluate import evalQuery
     g, data, i = make_data(desc, F, args)
     consts = [F.iri(args[i + j]) for j in range(desc["nconst"])]
-    q = prepare(desc["text"], consts)
     ref = R.Ref(data, consts)
     exp = ref.group(desc["group"], "default")
-    res = evalQuery(g, q)
     form = desc["form"]
+    if desc.get("public"):
+        # the public route: Graph.query(text) -> SPARQLProcessor.query -> Result object; what the caller can observe
+        # (vars, bindings, iteration, len, bool, askAnswer, graph) is turned back into the dictionary evalQuery returns
+        ro = g.query(desc["text"])
+        if ro.type != {"select": "SELECT", "ask": "ASK", "construct": "CONSTRUCT"}[form]:
+            return "Result.type is %r for a %s query" % (ro.type, form)
+        if form == "ask":
+            res = {"askAnswer": ro.askAnswer}
+            if bool(ro) != bool(ro.askAnswer) or list(ro) != [ro.askAnswer]:
+                return "bool() / iteration of an ASK result disagree with its askAnswer"
+        elif form == "construct":
+            res = {"graph": ro.graph}
+            if not same_set(list(ro), list(ro.graph)):
+                return "iterating a CONSTRUCT result does not give the triples of its graph"
+        else:
+            res = {"vars_": ro.vars, "bindings": ro.bindings}
+            rows = list(ro)
+            seen_by_iteration = ro.bindings
+            if desc.get("model_known_empty_rows"):
+                # residual check for the recorded finding: iteration leaves out the solutions that bind no projected variable
+                seen_by_iteration = [b for b in ro.bindings if len(b) > 0]
+            if len(rows) != len(seen_by_iteration) or len(ro) != len(ro.bindings):
+                return "len() / iteration of a SELECT result disagree with its bindings"
+            for row, b in zip(rows, seen_by_iteration):
+                for v in ro.vars:
+                    a = row[v]
+                    try:
+                        bb = b[v]
+                    except KeyError:
+                        bb = None
+                    if (a is None) != (bb is None) or (a is not None and not a == bb):
+                        return "a result row disagrees with the binding at the same position"
+    else:
+        q = prepare(desc["text"], consts)
+        res = evalQuery(g, q)
     if form == "ask":
         if bool(res["askAnswer"]) != (len(exp) > 0):
             return "ASK answer differs from non-emptiness of the algebra's solutions"
@@ -372,15 +405,19 @@ def obligations(tier, seed):
     rnd = random.Random(seed)
     obs = []
 
-    def add(name, group, nconst, form, data, budget, proj="*", template=None, distinct=False, graphs=False, kind="I", bnode_template=False):
+    def add(name, group, nconst, form, data, budget, proj="*", template=None, distinct=False, graphs=False, kind="I", bnode_template=False,
+            public=False):
         dd = [(d, "d") for d in data] if not graphs else data
         text = R.render(form, group, proj, template, distinct)
         tag = "".join(p for p, _ in dd) if not graphs else ",".join("%s@%s" % x for x in dd)
         if kind != "I":
             tag += "-" + kind
+        if public:
+            tag += "-public"
         obs.append(dict(oid="q/%s/%s/%s" % (form, name, tag), family="query",
                         desc={"name": name, "group": group, "nconst": nconst, "form": form, "text": text, "proj": proj, "kind": kind,
-                              "bnode_template": bnode_template, "template": template, "distinct": distinct, "data": [list(x) for x in dd], "dataset": graphs},
+                              "bnode_template": bnode_template, "template": template, "distinct": distinct, "data": [list(x) for x in dd], "dataset": graphs,
+                              "public": public},
                         sig=[("x%d" % i, "i") for i in range(2 * len(dd) + nconst)], budget=budget))
 
     S = singles()
@@ -401,6 +438,19 @@ def obligations(tier, seed):
         vs = R.vars_in_scope(group)
         template = [[V(vs[0]), Q, V(vs[-1])], [V(vs[-1]), P, V(vs[0])]]
         add(name, group, nc, "construct", ds, 200, template=template)
+    # the public route Graph.query(text) for every single-operator template without query constants
+    for name, (group, nc) in S.items():
+        if nc:
+            continue
+        ds = data_shapes(group, 2)[0]
+        add(name, group, nc, "select", ds, 300, public=True)
+        if tier == "thorough" or name in ("bgp1", "union-same", "optional/o-shared"):
+            vs = R.vars_in_scope(group)
+            add(name, group, nc, "ask", ds, 300, public=True)
+            add(name, group, nc, "construct", ds, 300, public=True, template=[[V(vs[0]), Q, V(vs[-1])], [V(vs[-1]), P, V(vs[0])]])
+    # a projection that leaves some solutions without any bound variable (they are solutions all the same)
+    add("optional/o-shared+proj-unbound", S["optional/o-shared"][0], 0, "select", ["p", "q"], 300, proj=["z"], public=True)
+    add("optional/o-shared+proj-unbound", S["optional/o-shared"][0], 0, "select", ["p", "p"], 300, proj=["z"], public=True)
     # CONSTRUCT templates with a blank node: one fresh node per solution of the multiset (duplicates from UNION / VALUES / [] included)
     for name in ("bgp1", "union-same", "values-dup", "union/s-shared", "optional/o-shared", "subselect-project-join", "join-union-dup"):
         group, nc = S[name]
@@ -564,8 +614,31 @@ def scope_issues(group):
 
 
 def finding_key(ob, cex, reason):
+    if ob["desc"].get("public") and reason.startswith("len() / iteration of a SELECT result"):
+        if ob["desc"].get("model_known_empty_rows"):
+            return "query|residual|%s" % reason
+        return "query|result-iteration-skips-all-unbound-rows"
     iss = scope_issues(ob["desc"]["group"])
     if iss:
         return "query|scope:" + "+".join(sorted(iss))
     import re
     return "query|%s" % re.sub(r" \(.*\)$", "", reason) + "|" + ob["desc"]["name"]
+
+
+def residual(ob):
+    """iteration of a SELECT Result skips solutions that bind no projected variable (recorded finding): the same obligation
+    against that reading, so that any other disagreement between iteration, len() and bindings is still reported"""
+    d = ob["desc"]
+    if d.get("public") and d["form"] == "select" and not d.get("model_known_empty_rows"):
+        o2 = dict(ob)
+        o2["desc"] = dict(d, model_known_empty_rows=True)
+        return o2
+    return None
+
+
+def untraced():
+    # the `public` obligations call Graph.query(text): rdflib's parser and translator run on concrete text, outside the tracer
+    from rdflib.plugins.sparql.algebra import translateQuery
+    from rdflib.plugins.sparql.parser import parseQuery
+    from ..driver import default_untraced
+    return default_untraced() + [parseQuery, translateQuery]
